@@ -258,6 +258,83 @@ func init() {
 		"aliasing":    "object identity on the executor heap: no []byte reachable from the decoded message (bytes fields in singular/repeated/oneof/map positions, unknown fields, nested) is backed by the input array; the input array term is untouched; decoding once and twice (Merge/duplicate records)",
 		"disturbance": "write-set of Size+Marshal restricted to objects allocated during the call; output buffer not backed by any message array; strings cannot alias in this model (Go string conversion copies; unsafe is rejected as unsupported)",
 	})
+	specs["C08"] = func(tier string) (*Plan, error) {
+		units, patterns, err := codecUnits([]string{"C08"}, tier, "reflect", func(g *gen, msgs []*Message) string {
+			return g.ReflectSource(msgs, fieldFilterFor(tier))
+		})
+		if err != nil {
+			return nil, err
+		}
+		if os := strings.TrimSpace(getenv("SYMGO_DUMP")); os != "" {
+			for _, u := range units {
+				for n, c := range u.Files {
+					writeFile(filepath.Join(os, u.PkgName+"_"+n), c)
+				}
+			}
+		}
+		return &Plan{
+			LoadDir:  repoDir,
+			Patterns: patterns,
+			Units:    units,
+			Regex:    "^VH_C08_",
+			Cfg:      sym.Config{MaxLoop: 40, MaxPaths: 12000},
+			Bounds: map[string]string{
+				"history":    "one reflection operation from an arbitrary valid pre-state of the target field (inductive step: covers operation histories of any length on that field); every other field populated with fixed values and compared afterwards (frame)",
+				"operations": "Has, Get, getter, Set, Clear, Mutable, NewField, Range, WhichOneof, GetUnknown/SetUnknown; List: Len/Get/Set/Append/Truncate/AppendMutable/NewElement/IsValid; Map: Len/Has/Get/Set/Clear/Range/Mutable/IsValid",
+				"values":     "scalars over their full domain; strings/bytes <= 4 bytes; lists 0..2 elements; maps 0..2 entries with symbolic keys",
+				"oneofs":     "pre-state: unset, this member, or any sibling member",
+				"outside":    "sequences that retain a view across a later Set/Clear of the same field; wrong-typed values",
+				"schemas":    "checked-in packages testpb and internal/testprotos/test3",
+			},
+			Stubs: append(append([]string{}, codecStubs...),
+				"protoreflect.Value/MapKey -> tagged union with the documented panics on kind mismatch (real type is unsafe-pointer packing)",
+				"protoreflect descriptors -> opaque objects computed natively from the package's raw descriptor (file_*_rawDesc)"),
+		}, nil
+	}
+	mkAux := func(prop string, bounds map[string]string) func(tier string) (*Plan, error) {
+		return func(tier string) (*Plan, error) {
+			units, patterns, err := codecUnits([]string{prop}, tier, "reflaux", func(g *gen, msgs []*Message) string {
+				return g.ReflectAuxSource(prop, msgs, fieldFilterFor(tier))
+			})
+			if err != nil {
+				return nil, err
+			}
+			if os := strings.TrimSpace(getenv("SYMGO_DUMP")); os != "" {
+				for _, u := range units {
+					for n, c := range u.Files {
+						writeFile(filepath.Join(os, u.PkgName+"_"+n), c)
+					}
+				}
+			}
+			bounds["schemas"] = "checked-in packages testpb and internal/testprotos/test3"
+			return &Plan{
+				LoadDir:  repoDir,
+				Patterns: patterns,
+				Units:    units,
+				Regex:    "^VH_" + prop + "_",
+				Cfg:      sym.Config{MaxLoop: 40, MaxPaths: 12000},
+				Bounds:   bounds,
+				Stubs: append(append([]string{}, codecStubs...),
+					"protoreflect.Value/MapKey -> tagged union with the documented panics on kind mismatch",
+					"protoreflect descriptors -> opaque objects computed natively from the package's raw descriptor"),
+			}, nil
+		}
+	}
+	specs["C09"] = mkAux("C09", map[string]string{
+		"receivers": "nil *M, Type().Zero(), Get(unpopulated message field).Message(), nil list elements, nil map values",
+		"reads":     "Has, Get (default / invalid empty views), Range, WhichOneof, IsValid, Size, Marshal, getters on nil receivers: finite (types x fields x accessors), decided by exhaustive path exploration",
+		"stores":    "Set (scalars) and Mutable (composites) on a nil message must panic",
+		"outside":   "proto.Equal/Clone/Merge, protojson/prototext on such values (library code, see C10)",
+	})
+	specs["C11"] = mkAux("C11", map[string]string{
+		"reduction": "a data race needs a write: the write-set of every read-only operation (Has, Get, views' Len/Get/Has/Range/IsValid, Range, WhichOneof, IsValid, Descriptor, Type, GetUnknown, Interface, getters, Size, Marshal in both modes) restricted to memory that existed before the call is empty on every path, hence any interleaving of readers is race-free and sees sequential results",
+		"states":    "every other field populated; target field over its builder domain (lists/maps 0..2, nested message with one symbolic field)",
+		"outside":   "library readers (Equal, Clone, JSON) beyond the methods they call; embedded well-known types; the Go memory model is assumed",
+	})
+	specs["C19"] = mkAux("C19", map[string]string{
+		"claimed": "getters == reflection Get on every field state (incl. oneof siblings, nil receivers in C09), Reset empties the message, Type/New/Zero/Interface yield the message's own Go type, Descriptor() is the package's md_ variable, enum Number() is the identity",
+		"outside": "the registered FileDescriptor equals the request schema, registry lookups, String() round-trip, enum String/Descriptor: these run through protoimpl.TypeBuilder / global registries at package init (reflection+unsafe), not encodable",
+	})
 	specs["C03"] = mkDec("C03")
 	specs["C14"] = mkDec("C14")
 	specs["C01"] = mk("C01")
